@@ -301,3 +301,69 @@ func verifC18_timed() {
 	c.CloseNow()
 	vObserve("c18timed", err == nil)
 }
+
+// C18.reset-race: a deadline is withdrawn (or moved into the future) at the very moment it expires. Real time passes
+// while code runs, so the deadline timer may fire between any two steps of SetRead/WriteDeadline and its callback may run
+// at any later point: in exploration mode the engine lets a timer that is due within a microsecond fire at every
+// scheduling point, and schedules the callback goroutine against the caller. Whatever the interleaving, once the
+// deadline has been reset the next call must not fail with a deadline error ("...until the deadline is reset").
+func verifC18_reset_race() {
+	client := vParam("client", 1) == 1
+	vInstallRand()
+	mk := func(f vFrame) vFrame {
+		f.masked = !client
+		if f.masked {
+			copy(f.key[:], vBytes("key", 4))
+		}
+		return f
+	}
+	wire := vEncodeFrame(mk(vFrame{fin: true, opcode: 2, payload: vBytes("m", 2)}))
+	t := vNewTransport(wire)
+	t.endMode = vEndBlock
+	c := vNewConn(t, client, nil, 32, 64)
+	nc := NetConn(vBG, c, MessageBinary)
+	write := vChoose("dir", 2) == 1
+	how := vChoose("how", 2)
+	vClassify("dir", []string{"read", "write"}[vChoose0(write)])
+	vClassify("how", []string{"past-deadline-then-reset", "reset-at-the-instant-of-expiry"}[how])
+	to := time.Time{}
+	if vChoose("to", 2) == 1 {
+		to = time.Now().Add(time.Hour)
+	}
+	set := nc.SetReadDeadline
+	if write {
+		set = nc.SetWriteDeadline
+	}
+	if how == 1 {
+		set(time.Now().Add(time.Second))
+		time.Sleep(time.Second - time.Nanosecond)
+	}
+	vGhostTimeSlip(1000)
+	vGhostExplore(2)
+	if how == 0 {
+		set(time.Now().Add(-time.Second)) // already past: expires "immediately"
+	}
+	set(to) // withdrawn / moved an hour ahead
+	vGhostExploreOff()
+	vGhostTimeSlip(0)
+	time.Sleep(10 * time.Millisecond) // whatever callback was in flight has run by now
+	vReach("C18.reset-race.reset-done")
+	var err error
+	if write {
+		_, err = nc.Write([]byte("x"))
+	} else {
+		p := make([]byte, 4)
+		_, err = nc.Read(p)
+	}
+	vAssert(err == nil, "C18.deadline.reset-clears-expiry")
+	vAssert(vIsOpen(c), "C18.deadline.reset-keeps-connection")
+	c.CloseNow()
+	vObserve("c18reset", write, how, err == nil)
+}
+
+func vChoose0(b bool) int {
+	if b {
+		return 1
+	}
+	return 0
+}
